@@ -248,6 +248,8 @@ defjvp_argnum(anp.concatenate_args, fwd_grad_concatenate_args)
 
 
 def fwd_grad_sort(g, ans, x, axis=-1, kind="quicksort", order=None):
+    if len(x.shape) > 1:
+        raise NotImplementedError("Gradient of sort not implemented for multi-dimensional arrays.")
     sort_perm = anp.argsort(x, axis, kind, order)
     return g[sort_perm]
 
@@ -258,6 +260,8 @@ if onp.lib.NumpyVersion(onp.__version__) < "2.0.0":
 
 
 def fwd_grad_partition(g, ans, x, kth, axis=-1, kind="introselect", order=None):
+    if len(x.shape) > 1:
+        raise NotImplementedError("Gradient of partition not implemented for multi-dimensional arrays.")
     partition_perm = anp.argpartition(x, kth, axis, kind, order)
     return g[partition_perm]
 
